@@ -340,7 +340,8 @@ finish_recv_packet = Spec(
         is_async(c), c.eq(c.newv('_recv_handler'), VTag('method:SSHConnection._recv_pkthdr')))),
     ],
     requires=lambda c: z3.And(c.arg('seq') >= 0, c.arg('seq') < 2 ** 32, c.old('_recv_seq') >= 0,
-                              c.old('_recv_seq') < 2 ** 32),
+                              c.old('_recv_seq') < 2 ** 32, c.old('_recv_blocksize') >= 8,
+                              c.old('_recv_macsize') >= 0, c.old('_banner_lines') >= 0),
     always=[('buffer-untouched-when-synchronous', lambda c: z3.Or(is_async(c),
                                                                   c.new('_inpbuf') == c.old('_inpbuf'))),
             ('seq-stays-uint32', lambda c: z3.Or(is_async(c), z3.And(c.new('_recv_seq') >= 0,
@@ -516,6 +517,7 @@ recv_data = Spec(
     modifies=['_inpbuf', '_recv_handler', '_transport', '_send_seq', '_recv_blocksize', '_recv_macsize',
               '_recv_seq', '_packet', '_pktlen', '_banner_lines'],
     requires=lambda c: pump_inv(c, new=False),
+    ensures=[('normal-exit-without-error-leaves-connection-alone', lambda c: z3.BoolVal(True))],
     always=[('error-means-closed',
              lambda c: z3.BoolVal(True) if not (c.events('send_disconnect') or c.events('internal_error'))
              else z3.And(closed(c) if c.events('send_disconnect') else z3.BoolVal(True),
